@@ -11,7 +11,9 @@ use crate::util::*;
 /// before `split` are the greeting (the peer then waits for the 2-byte method reply, lock-step),
 /// the rest the request.  After the handshake the peer sends `marker`; whatever the proxy side can
 /// still read from the stream is returned as `rest` (exact-consumption check).
-pub fn run(rt: &tokio::runtime::Runtime, segments: &[Vec<u8>], split: Option<usize>, marker: &[u8]) -> String {
+/// `fin`: the peer writes everything at once and half-closes before the proxy has looked at the connection (`nc -N`,
+/// HTTP/1.0 clients): a complete request must still be served.
+pub fn run(rt: &tokio::runtime::Runtime, segments: &[Vec<u8>], split: Option<usize>, marker: &[u8], fin: bool) -> String {
     rt.block_on(async {
         let Ok(listener) = TcpListener::bind("127.0.0.1:0").await else { return "no-loopback".to_owned() };
         let addr = listener.local_addr().unwrap();
@@ -23,6 +25,18 @@ pub fn run(rt: &tokio::runtime::Runtime, segments: &[Vec<u8>], split: Option<usi
             let mut c = TcpStream::connect(addr).await.ok()?;
             c.set_nodelay(true).ok()?;
             let mut reply = vec![];
+            if fin {
+                let _ = c.write_all(&segs.concat()).await;
+                let _ = c.shutdown().await;
+                let mut buf = [0u8; 4096];
+                loop {
+                    match tokio::time::timeout(Duration::from_millis(400), c.read(&mut buf)).await {
+                        Ok(Ok(n)) if n > 0 => reply.extend_from_slice(&buf[..n]),
+                        _ => break,
+                    }
+                }
+                return Some(reply);
+            }
             for (i, sgm) in segs.iter().enumerate() {
                 if Some(i) == split && !early.load(std::sync::atomic::Ordering::SeqCst) {
                     // lock-step: wait for the method selection reply
@@ -64,6 +78,9 @@ pub fn run(rt: &tokio::runtime::Runtime, segments: &[Vec<u8>], split: Option<usi
         });
         let Ok((mut inbound, _)) = listener.accept().await else { return "accept-failed".to_owned() };
         let local = inbound.local_addr().unwrap();
+        if fin {
+            tokio::time::sleep(Duration::from_millis(60)).await;
+        }
         let res = tokio::time::timeout(Duration::from_secs(4), hs::get_request_addr(&mut inbound)).await;
         let mut rest = vec![];
         let outcome = match res {
